@@ -267,8 +267,17 @@ func (e *Env) step(done func() bool, idleFor *time.Duration) (reason string, sle
 		if e.Quiet {
 			return "quiet-idle", 0, false, nil
 		}
-		// nothing to do but let time pass
-		return "", e.Knobs.MaxIdle, true, nil
+		// nothing to do but let time pass - at most until the next fault that
+		// is due at a given time
+		sleep := e.Knobs.MaxIdle
+		for _, f := range e.Faults {
+			if !f.Fired && f.On == "ms" {
+				if d := ms(f.N) - e.Now(); d > 0 && d < sleep {
+					sleep = d
+				}
+			}
+		}
+		return "", sleep, true, nil
 	}
 	*idleFor = 0
 	e.freeQ = 0
